@@ -60,6 +60,9 @@ type fileCtx struct {
 	constArg map[ast.Expr]bool
 	labeled  map[ast.Stmt]bool
 	racy     map[string]bool
+	raceAcc  map[ast.Expr]byte // race build: field / variable accesses to report ('r' / 'w')
+	raceMap  map[ast.Expr]byte // race build: map operands to report
+	raceSite map[ast.Expr]raceSite
 }
 
 func main() {
@@ -67,11 +70,13 @@ func main() {
 	verif := flag.String("verif", "/verif", "verification root")
 	out := flag.String("out", "", "output directory (generated sources + overlay.json)")
 	flag.StringVar(&extraDir, "extra", "", "directory of an extra package to instrument and map into the module as go.amzn.com/veriflit")
+	flag.BoolVar(&raceMode, "race", false, "race build: report field, package variable, captured variable and map accesses to the scheduler's race detector")
 	flag.Parse()
 	if *out == "" {
 		fmt.Fprintln(os.Stderr, "vinstr: -out required")
 		os.Exit(2)
 	}
+	loadRacySites(filepath.Join(*verif, "racy_sites.txt"))
 	if err := run(*repo, *verif, *out); err != nil {
 		fmt.Fprintln(os.Stderr, "vinstr:", err)
 		os.Exit(2)
@@ -168,6 +173,12 @@ func run(repo, verif, out string) error {
 	if err := addTree(filepath.Join(verif, "harness"), filepath.Join(repo, "verifh")); err != nil {
 		return err
 	}
+	// build mode constant of the scheduler package
+	modeFile := filepath.Join(gen, "verifrt_sched_zz_mode.go")
+	if err := os.WriteFile(modeFile, []byte(fmt.Sprintf("package sched\n\n// RaceBuild: every access reports to the race detector (vinstr -race); otherwise only maps and the listed racy sites.\nconst RaceBuild = %v\n", raceMode)), 0o644); err != nil {
+		return err
+	}
+	overlay[filepath.Join(repo, "verifrt", "sched", "zz_mode.go")] = modeFile
 	// entry files: /verif/entry/<repo-relative dir>/<file>.go are added into repo packages
 	if err := addTree(filepath.Join(verif, "entry"), repo); err != nil {
 		return err
@@ -303,9 +314,22 @@ func instrument(fset *token.FileSet, info *types.Info, f *ast.File, rel string) 
 		return true
 	})
 
+	if strings.HasPrefix(rel, "lambda/") || strings.HasPrefix(rel, "cmd/") {
+		c.classifyRace()
+	}
 	res := astutil.Apply(f, nil, func(cur *astutil.Cursor) bool {
 		if err != nil {
 			return false
+		}
+		if c.raceAcc != nil {
+			if ex, ok := cur.Node().(ast.Expr); ok {
+				if r := c.raceWrap(ex); r != nil {
+					delete(c.raceAcc, ex)
+					delete(c.raceMap, ex)
+					cur.Replace(r)
+					return true
+				}
+			}
 		}
 		switch n := cur.Node().(type) {
 		case *ast.UnaryExpr:
